@@ -225,6 +225,8 @@ def run_C07(tier, seed):
     fb = stages.api_stage("C07", "forge", tier, seed, groups=("rist",), scale="2:256", scale_min=0, filter_fn=lambda s: len(s["sc"]["members"]) >= 2)
     fb.name = "api:forge@256"
     res.append(fb)
+    # a triple and, in the same batch, the same triple under a substituted (in-range) promise: each member is judged under ITS promises
+    res.append(stages.api_stage("C07", "batch", tier, seed, filter_fn=lambda s: any(m.get("bseed") == 7 and m["v"]["proms"] != m["proms"] for m in s["sc"]["members"])))
     # the coefficient on H carries every promise: final-MSM scalars against the published relation
     sc, _ = stages.pick_scenarios("promise", tier, seed, lambda s: verifies(s) and nm_of(s) <= 16, 10 if q else 100, prop="C07")
     res.append(stages.trace_stage("C07", "promise-term", sc, seed, module="TraceVerify", calls="verify"))
@@ -313,7 +315,9 @@ def run_C13(tier, seed):
     q = Q(tier)
     res = [stages.transcript_stage("C13", tier, omits=(), extra_negs=[("rng_not_rebuilt", stages.transcript_cfg(rebuild=False), "SeesAll")])]
     # every degree, seeded and unseeded, several sizes: nonces read off the proof points, provenance, distinctness, cross-run freshness
-    sc, _ = stages.pick_scenarios("hedge", tier, seed, lambda s: s["sc"]["members"][0]["rng"] == "chacha" and s["sc"]["members"][1]["rvar"] == 0 and not s["sc"]["samecommit"], 8 if q else 80, prop="C13")
+    # (always: pairs proved one right after the other, on one thread, under two different seeds - also seeds that differ in one byte only)
+    sc, _ = stages.pick_scenarios("hedge", tier, seed, lambda s: s["sc"]["members"][0]["rng"] == "chacha" and s["sc"]["members"][1]["rvar"] == 0 and not s["sc"]["samecommit"], 8 if q else 80, prop="C13",
+                                  must=lambda s: s["sc"]["members"][0]["seed"] != 0 and s["sc"]["members"][1]["seed"] not in (0, s["sc"]["members"][0]["seed"]), must_count=4)
     # the same inputs proved twice with different external RNG streams (seeded and unseeded): all such pairs
     rv, _ = stages.pick_scenarios("hedge", tier, seed, lambda s: s["sc"]["members"][0]["rng"] == "chacha" and s["sc"]["members"][1]["rvar"] == 1, 1000, prop="C13")
     sc = rv + sc
